@@ -29,6 +29,35 @@ Theorem classdef_subset_preserves_partition : forall c glyphs u g h, classes_non
 Proof. exact Proofs.classdef_subset_preserves_partition. Qed.
 Print Assumptions classdef_subset_preserves_partition.
 
+
+(* every used variation index is mapped to a (VarData, row) position of the subset store that holds the same delta row;
+   row counts per VarData fit the uint16 ItemCount *)
+Theorem varstore_subset_sound : forall store used retain adv v items,
+  Forall (fun it : list row => Z.of_nat (length it) <= 65536) store ->
+  (forall a, In a adv -> 0 <= a < 65536) ->
+  In v used -> v <> NO_VARIATION -> 0 <= v ->
+  nth_error store (Z.to_nat (vmajor v)) = Some items -> (Z.to_nat (vminor v) < length items)%nat ->
+  let '(ns, mp) := varstore_subset store used retain adv in
+  exists j k, lookupZ mp v = Some (mk_idx (Z.of_nat j) k) /\ 0 <= k /\
+              nth (Z.to_nat k) (nth j ns []) [] = get_row items (vminor v).
+Proof. exact Proofs.varstore_subset_sound. Qed.
+Print Assumptions varstore_subset_sound.
+Example varstore_example : varstore_subset [[[1]; [2]]; [[3]]; [[4]; [5]]] [131073; 0] false [] = ([[[1]]; [[5]]], [(0, 0); (131073, 65536)]).
+Proof. vm_compute. reflexivity. Qed.
+
+
+(* the whole GSUB closure (single, multiple, alternate, ligature, contextual and chaining lookups with nested calls): what it returns
+   contains the request and is closed under every substitution and ligature subtable of every lookup a feature applies directly *)
+Theorem closure_gsub_closed : forall fuel depth lks order s0 s, closure_gsub fuel (S depth) lks order s0 = Some s ->
+  (forall x, In x s0 -> In x s) /\
+  (forall i st, In i order -> In st (nth i lks []) -> sub_closed st s).
+Proof. exact Proofs.closure_gsub_closed. Qed.
+Print Assumptions closure_gsub_closed.
+Example closure_gsub_example :
+  closure_gsub 5 3 [[SCtx [mkCR [1] [[2; 3]] [[2; 3]] [(0%nat, 1%nat)]]]; [SLig [(1, ([2], 4)); (1, ([3], 5))]]; [SMap false [(2, [3])]]] [0%nat; 2%nat] [1; 2]
+  = Some [1; 2; 4; 3; 5].
+Proof. vm_compute. reflexivity. Qed.
+
 (* non-vacuity: a concrete closure that needs two rounds, and a class map that loses class 0 *)
 Example closure_example : closure 5 [[(1, [2; 3])]; [(3, [4])]; [(9, [1])]] [9] = Some [9; 1; 2; 3; 4].
 Proof. vm_compute. reflexivity. Qed.
